@@ -142,6 +142,54 @@ Proof.
   - intros [[<-|[<-|[]]]|[[<-|[<-|[<-|[]]]] H]]; simpl; try tauto; vm_compute in H; discriminate.
 Qed.
 
+(* Nested buckets, as far as it goes.  A bucket's listing is the prefix slice
+   of the merged map under its id.  Put/Delete in bucket [id] are put/delete on
+   that bucket's listing and leave untouched every listing whose prefix cannot
+   match the written raw key; two different ids of the same length, and the
+   index prefix "bidx"<q> versus any id not starting with 'b', are such
+   prefixes: the ordered-map refinement holds per bucket. *)
+Theorem C16_bucket_write_refines : forall t id k v, tx_ok t -> t_w t = true ->
+  bucket_keys (put_key t (bucketized id k) v) id = OMap.put (bucket_keys t id) k v /\
+  bucket_keys (delete_key t (bucketized id k)) id = OMap.del (bucket_keys t id) k /\
+  (forall p, strip_prefix p (bucketized id k) = None ->
+     under p (view (put_key t (bucketized id k) v)) = under p (view t) /\
+     under p (view (delete_key t (bucketized id k))) = under p (view t)).
+Proof. exact bucket_write_refines. Qed.
+Print Assumptions C16_bucket_write_refines.
+
+Theorem C16_bucket_isolation : forall id id' k a q,
+  (length id = length id' -> id <> id' -> strip_prefix id' (bucketized id k) = None) /\
+  (a <> 98 -> strip_prefix (bidx ++ q) (bucketized (a :: id) k) = None).
+Proof. exact bucket_isolation. Qed.
+Print Assumptions C16_bucket_isolation.
+
+(* CreateBucket as a specification operation: exactly one new entry
+   name -> next id in the parent's bucket index, the id counter advanced to it,
+   every listing under a prefix matching neither written key unchanged. *)
+Theorem C16_create_bucket_refines : forall t id n t', tx_ok t -> b_create t id n = (t', E_OK) ->
+  strip_prefix (bidx ++ id) cbid_key = None ->
+  exists nid,
+    bucket_subs t' id = OMap.put (bucket_subs t id) n nid /\
+    fetch t' cbid_key = Some nid /\
+    (forall p, strip_prefix p cbid_key = None -> strip_prefix p (bidx_key id n) = None ->
+       under p (view t') = under p (view t)).
+Proof. exact create_bucket_refines. Qed.
+Print Assumptions C16_create_bucket_refines.
+
+(* Non-vacuity: on the freshly initialised store, creating bucket "a" in the
+   root succeeds with id 2, shows up in the root's index next to
+   ffldb-blockidx, and a Put in it is listed there and nowhere else. *)
+Example C16_buckets_nonvacuous :
+  let init : kvs := [(bidx_key meta_id [102], [0; 0; 0; 1]); (cbid_key, [0; 0; 0; 1])] in
+  let t := begin {| d_store := init; d_ck := []; d_cr := []; d_max := 0; d_always := false |} true in
+  let '(t1, c) := b_create t meta_id [97] in
+  let '(t2, c2) := b_put t1 [0; 0; 0; 2] [49] [7] in
+  tx_ok t /\ c = E_OK /\ c2 = E_OK /\ strip_prefix (bidx ++ meta_id) cbid_key = None /\
+  bucket_subs t2 meta_id = [([97], [0; 0; 0; 2]); ([102], [0; 0; 0; 1])] /\
+  bucket_keys t2 [0; 0; 0; 2] = [([49], [7])] /\ bucket_keys t2 meta_id = [] /\
+  resolve t2 meta_id [[97]] = Some [0; 0; 0; 2].
+Proof. vm_compute. repeat split; auto; repeat constructor. Qed.
+
 (* Non-vacuity: a history with a reader that keeps its snapshot across a
    commit, a rollback, a flushing and a non-flushing commit is admissible, and
    the implementation model returns the expected values. *)
